@@ -32,6 +32,10 @@ pub struct Case {
     /// explicit script (set by the shrinker); None = derive from script_seed
     pub script: Option<Vec<Call>>,
     pub stack: Stack,
+    /// feed the history twice through the same adapter object (Replace only:
+    /// Compact keeps its buffer and is single-use by construction)
+    #[serde(default)]
+    pub reuse: bool,
     pub only_k: Option<u64>,
     pub cap: u64,
     pub sample_seed: u64,
@@ -71,6 +75,25 @@ pub fn run_fed(
     stack: Stack,
     fail_at: Option<usize>,
 ) -> Result<Fed, String> {
+    run_fed2(seq, script, stack, fail_at, false)
+}
+
+fn feed_n<D: DiffHook<Error = HookErr>>(d: &mut D, script: &[Call], twice: bool) -> (Result<(), HookErr>, usize) {
+    let (r, fed) = feed(d, script);
+    if !twice || r.is_err() {
+        return (r, fed);
+    }
+    let (r2, fed2) = feed(d, script);
+    (r2, fed + fed2)
+}
+
+pub fn run_fed2(
+    seq: &SeqCase,
+    script: &[Call],
+    stack: Stack,
+    fail_at: Option<usize>,
+    twice: bool,
+) -> Result<Fed, String> {
     let _guard = SimGuard::new(None, seq.hasher);
     let _ = similar::verif::take_hits();
     let (old, new) = (&seq.old[..], &seq.new[..]);
@@ -79,42 +102,42 @@ pub fn run_fed(
         Stack::ReplaceRef => {
             let r = {
                 let mut d = Replace::new(&mut h);
-                guarded(|| feed(&mut d, script))
+                guarded(|| feed_n(&mut d, script, twice))
             };
             (h, r)
         }
         Stack::CompactReplaceRef => {
             let r = {
                 let mut d = Compact::new(Replace::new(&mut h), old, new);
-                guarded(|| feed(&mut d, script))
+                guarded(|| feed_n(&mut d, script, twice))
             };
             (h, r)
         }
         Stack::CompactRef => {
             let r = {
                 let mut d = Compact::new(&mut h, old, new);
-                guarded(|| feed(&mut d, script))
+                guarded(|| feed_n(&mut d, script, twice))
             };
             (h, r)
         }
         Stack::Compact => {
             let mut d = Compact::new(h, old, new);
-            let r = guarded(|| feed(&mut d, script));
+            let r = guarded(|| feed_n(&mut d, script, twice));
             (d.into_inner(), r)
         }
         Stack::Replace => {
             let mut d = Replace::new(h);
-            let r = guarded(|| feed(&mut d, script));
+            let r = guarded(|| feed_n(&mut d, script, twice));
             (d.into_inner(), r)
         }
         Stack::CompactReplace => {
             let mut d = Compact::new(Replace::new(h), old, new);
-            let r = guarded(|| feed(&mut d, script));
+            let r = guarded(|| feed_n(&mut d, script, twice));
             (d.into_inner().into_inner(), r)
         }
         Stack::ReplaceCompact => {
             let mut d = Replace::new(Compact::new(h, old, new));
-            let r = guarded(|| feed(&mut d, script));
+            let r = guarded(|| feed_n(&mut d, script, twice));
             (d.into_inner().into_inner(), r)
         }
     };
@@ -191,6 +214,30 @@ impl C10 {
             {
                 out.faults[F_SCRIPT_INTERLEAVED] += 1;
             }
+        }
+        let reuse = case.reuse && matches!(case.stack, Stack::Replace | Stack::ReplaceRef);
+        if reuse {
+            let once = run_fed(seq, &script, case.stack, None).map_err(|m| Fail {
+                clause: "c10.panic",
+                detail: m,
+            })?;
+            let twice = run_fed2(seq, &script, case.stack, None, true).map_err(|m| Fail {
+                clause: "c10.panic",
+                detail: m,
+            })?;
+            out.execs += 2;
+            let mut expect = once.calls.clone();
+            expect.extend(once.calls.iter().cloned());
+            if twice.result.is_err() || twice.calls != expect {
+                return fail(
+                    "c10.reuse",
+                    format!(
+                        "{:?} fed the same history twice: consumer saw {:?}, expected twice {:?}",
+                        case.stack, twice.calls, once.calls
+                    ),
+                );
+            }
+            out.count("adapter_fed_twice", 1);
         }
         let ok = run_fed(seq, &script, case.stack, None).map_err(|m| Fail {
             clause: "c10.panic",
@@ -351,6 +398,7 @@ impl Prop for C10 {
                 Stack::CompactReplaceRef,
                 Stack::CompactRef,
             ]),
+            reuse: rng.chance(1, 3),
             only_k: None,
             cap: if tier == Tier::Quick { 64 } else { 1024 },
             sample_seed: rng.next(),
@@ -426,6 +474,7 @@ impl Prop for C10 {
             ("compact_down_merge_insert", agg.hits[18]),
             ("compact_down_merge_delete", agg.hits[19]),
             ("replace_merged_del_ins", agg.hits[27]),
+            ("adapter_fed_twice", agg.counters.get("adapter_fed_twice").copied().unwrap_or(0)),
             ("history_insert_before_delete", agg.faults[F_SCRIPT_INS_BEFORE_DEL]),
             ("history_interleaved", agg.faults[F_SCRIPT_INTERLEAVED]),
         ]
